@@ -15,6 +15,11 @@ CONSTANTS
   Menu = {{}, {0}, {1, 2}}
   Moods = {"quiet", "plain", "reorg"}
   MaxReorgs = 2
-  Fams = {"att", "sync", "bids"}
+  MsgLates = {0}
+  AucLates = {0}
+  SubLates = {0}
+  AttLates = {0}
+  MaxHeld = 1
+  Fams = {"att"}
 INVARIANTS TypeOK RunningLeftTable AttestedBounded SubsBounded RootsBounded RecordsBounded BidsBounded JobsBounded PendingExact
 CHECK_DEADLOCK FALSE
